@@ -276,6 +276,7 @@ func init() {
 		ex.ts.lift = args[0].(*Term).IsTrue()
 		return nil
 	})
+	reg("vf:vfGhost", func(ex *Exec, fr *Frame, args []Value, site ssa.Instruction) Value { return args[0] })
 	reg("vf:vfIsGSE", func(ex *Exec, fr *Frame, args []Value, site ssa.Instruction) Value { return ex.ts.True })
 	reg("vf:vfTier", func(ex *Exec, fr *Frame, args []Value, site ssa.Instruction) Value {
 		return ex.c64(uint64(ex.w.tier))
